@@ -46,6 +46,7 @@ def run(chk, repo):
     chk.rule("C20-P2", "transformers keyed by a nullable field test that field's own blank sentinel; no conversion fabricates a value from a blank", 5)
     chk.rule("C20-P3", "adapter blank semantics: blank integer -> -1, blank float -> NaN, blank text -> '', NUL padding -> b''", 4)
     chk.rule("C20-P4", "optional header attributes are dropped through the empty-list marker", 3)
+    chk.attempt(blank_entries_kept, chk, repo)  # an evaluation on concrete columns: decided before (and whether or not) the symbolic inference below applies
     P = pipelines(repo, L)
     results = P.run()
     # ---------------------------------------------------------------- P1
@@ -519,3 +520,36 @@ def header_sentinels(chk, repo, L):
                         f"{f}: filled value {v!r} -> {plain(out.items.get(nullable[f][0])) if nullable[f][0] in out.items else 'missing'}"
                         f"{'' if others_absent else '; blank siblings surface: ' + str([g for g in nullable if g != f and not absent(out, g)])}: a present header value is dropped or altered",
                         key=f"header:{f}:filled:{v!r}")
+
+
+def blank_entries_kept(chk, repo):
+    """C20-P7: transformers.separate_attrs - where the columns of every table (state vectors, per-channel tables, attitude points, the
+    per-line metadata) are assembled - evaluated on concrete columns with blank entries (NaN / -1 / '') at the first, a middle and
+    the last positions, and on an all-blank column: every entry comes back, in order, the blank ones as their sentinel.  A blank
+    entry that is dropped shortens one column of a table against the others"""
+    import math
+    from collections import OrderedDict
+    from ..repeval import from_shape, Undecided
+    from ..shapes import Const, DictS, Interp, ListLit, NonTermination, ShapeError, TupS, _Raise
+    chk.rule("C20-P7", "columns assembled from (value, attrs) pairs keep every entry: blank entries (NaN, -1, '') stay in place", 6)
+    tm = repo.module("ceos_alos2.transformers")
+    where = f"{tm.relpath}:separate_attrs"
+    nan = float("nan")
+    cols = {"blank last": [1.5, 2.5, nan], "blank tail": [1.5, nan, nan], "blank first": [nan, 2.5, 3.5], "blank middle": [1.5, nan, 3.5], "all blank": [nan, nan, nan], "integers": [3, -1, -1], "texts": ["a", "", ""]}
+    for label, col in cols.items():
+        I = Interp(repo)
+        attrs = DictS(OrderedDict(units=Const("m")))
+        data = ListLit([TupS([Const(v), attrs]) for v in col])
+        try:
+            out = I.call(I.lookup("separate_attrs", I.module_scope(tm)), [data], {})
+            got = from_shape(out)
+        except _Raise as e:
+            chk.fail("C20-P7", where, f"a column with {label} entries ({col}) raises {e.what[:60]}", key=f"column:{label}")
+            continue
+        except (ShapeError, NonTermination, RecursionError, Undecided) as e:
+            raise AnalysisError(f"{where}: cannot be evaluated on a concrete column ({label}): {str(e)[:120]}")
+        vals = list(got[0]) if isinstance(got, (tuple, list)) and len(got) == 2 and isinstance(got[0], (list, tuple)) else None
+        same = vals is not None and len(vals) == len(col) and all((isinstance(a, float) and isinstance(b, float) and math.isnan(a) and math.isnan(b)) or (a == b and type(a) is type(b)) for a, b in zip(vals, col))
+        chk.require(same and got[1] == {"units": "m"}, "C20-P7", where, f"a column with {label} entries keeps all {len(col)} of them",
+                    f"a column with {label} entries {col} comes back as {str(got)[:100]}: blank entries are dropped or replaced - the column no longer lines up with the other columns of its table",
+                    key=f"column:{'blank-tail' if 'last' in label or 'tail' in label or 'all' in label else label}")
